@@ -40,11 +40,13 @@ printf '[net]\noffline = true\n' > "$S/shadow/.cargo/config.toml"
 cp "$ROOT/known_findings.json" "$S/vroot/known_findings.json"
 export CARGO_NET_OFFLINE=true
 if [ $TESTS -eq 1 ]; then
-  # the change must compile and pass the crate's own, unedited test suite
-  if ( cd "$S/repo" && cp /repo/Cargo.lock . && CARGO_TARGET_DIR="$S/ctarget" cargo test --offline --features serde >"$S/ctest.log" 2>&1 ); then
+  # the change must compile and pass the crate's own, unedited test suite (default features and serde)
+  ( cd "$S/repo" && cp /repo/Cargo.lock . && CARGO_TARGET_DIR="$S/ctarget" cargo test --offline >"$S/ctest1.log" 2>&1 ); t1=$?
+  ( cd "$S/repo" && CARGO_TARGET_DIR="$S/ctarget" cargo test --offline --features serde >"$S/ctest2.log" 2>&1 ); t2=$?
+  if [ $t1 -eq 0 ] && [ $t2 -eq 0 ]; then
     echo "$(basename "$PATCH") crate-tests pass"
   else
-    echo "$(basename "$PATCH") crate-tests FAIL: $(grep -m1 -E '^error|FAILED|failed' "$S/ctest.log")"
+    echo "$(basename "$PATCH") crate-tests FAIL: $(grep -h -m1 -E '^error|\.\.\. FAILED' "$S/ctest1.log" "$S/ctest2.log" | head -1)"
   fi
   rm -rf "$S/ctarget"
 fi
